@@ -248,15 +248,30 @@ func vpH_C14_embedded_url() {
 	vpReach("end")
 }
 
-func vpT_C14_full() {
-	// everything varied together, on at most one segment and one query pair per side (two of each did
-	// not finish in 15 minutes)
-	ka, va := vpQuery(vpChoice(2))
-	kb, vb := vpQuery(vpChoice(2))
-	pa := vpIRIParts{scheme: vpChoice(3), host: vpLetterCase(), port: vpChoice(2), segs: vpSegs(vpChoice(2)), trailing: vpBool(), dot: vpChoice(4), qk: ka, qv: va, frag: vpBool()}
-	pb := vpIRIParts{scheme: vpChoice(2), host: vpLetterCase(), port: vpChoice(2), segs: vpSegs(vpChoice(2)), trailing: vpBool(), qk: kb, qv: vb}
+// thorough: the families varied together, two at a time (all three together, even on one segment and one
+// query pair per side, did not finish in 15 minutes: 186 000 paths explored when it was stopped)
+func vpT_C14_path_host() {
+	pa := vpIRIParts{scheme: vpChoice(3), host: vpLetterCase(), port: vpChoice(2), segs: vpSegs(vpChoice(3)), trailing: vpBool(), dot: vpChoice(4)}
+	pb := vpIRIParts{scheme: vpChoice(2), host: vpLetterCase(), port: vpChoice(2), segs: vpSegs(vpChoice(3)), trailing: vpBool()}
 	vpC14Laws(pa, pb, vpBool())
 }
+
+func vpT_C14_path_query() {
+	ka, va := vpQuery(vpChoice(3))
+	kb, vb := vpQuery(vpChoice(3))
+	pa := vpIRIParts{host: 'h', segs: vpSegs(vpChoice(2)), trailing: vpBool(), dot: vpChoice(4), qk: ka, qv: va, frag: vpBool()}
+	pb := vpIRIParts{host: 'h', segs: vpSegs(vpChoice(2)), trailing: vpBool(), qk: kb, qv: vb, swapQ: vpBool()}
+	vpC14Laws(pa, pb, true)
+}
+
+func vpT_C14_host_query() {
+	ka, va := vpQuery(vpChoice(2))
+	kb, vb := vpQuery(vpChoice(2))
+	pa := vpIRIParts{scheme: vpChoice(3), host: vpLetterCase(), port: vpChoice(2), segs: []byte{'p'}, qk: ka, qv: va, frag: vpBool()}
+	pb := vpIRIParts{scheme: vpChoice(2), host: vpLetterCase(), port: vpChoice(2), segs: []byte{'p'}, trailing: vpBool(), qk: kb, qv: vb}
+	vpC14Laws(pa, pb, vpBool())
+}
+
 func vpW_C14_twin() {
 	pa := vpIRIParts{host: vpLetterCase(), segs: vpSegs(1)}
 	_ = IRI(pa.String()).Equals("https://a.ex/a", true)
